@@ -206,6 +206,18 @@ def run(ctx):
     d2_data_owners(ctx, committer, appenders)
     d2_commit_counts(ctx, committer, appenders)
     truncate_commit_matches_resize(ctx, 'D2', committer)
+    # crash states of an append are "original data + a whole number of the appended chunks": append(x) offers x as ONE
+    # chunk (shared with C09) — cut into physical pieces, a crash after the first piece's commit shows a prefix of x
+    from .C09 import append_is_one_chunk
+    A_ = ctx.repo.cls('Array')
+    append_is_one_chunk(ctx, A_.methods.get('append'), A_.methods.get('iterappend'))
+    # a crash inside truncate_raggedarray (indices cut, values not yet) legitimately leaves orphan rows at the end of
+    # values: the next append must start its index row at the values LENGTH, not at the end of the last index row
+    # (shared with C04/C05 D1)
+    from .C10 import find_step
+    from .C05 import d1_contiguity
+    step_, _roles = find_step(ctx, appenders)
+    d1_contiguity(ctx, ctx.repo.cls('RaggedArray'), step_, appenders)
     d3_two_file_order(ctx, committer)
     d4_whole_file_rewrites(ctx)
     from ._shared import inplace_rewrites_truncate
